@@ -21,8 +21,9 @@ LEVEL_TEXT = ('Decides clauses C03-a..h: in every arm of Response::send the summ
               'ctly), so the announced Content-Length is followed by that many bytes; insert, append and remove of a header given by name agree on whether standard n'
               'ames are redirected to the standard store. The 204/stream decisions of complete() are decided on every path: from the entry no path reaches the exit w'
               'ithout the removal of Content-Length (resp. of the body) unless it takes an edge establishing that the status is not 204 (resp. the content is not a s'
-              'tream) or that there is nothing to remove, so an arm matched before the status is looked at cannot answer for a 204. Decides these clauses, not byte-l'
-              'evel well-formedness for all operation histories.')
+              'tream) or that there is nothing to remove, so an arm matched before the status is looked at cannot answer for a 204. C03-i: the chunked framing of a s'
+              'treamed body (size line = length of the finished message, CRLFs, terminal zero chunk: the C17-a clauses) re-evaluated. Decides these clauses, not byte'
+              '-level well-formedness for all operation histories.')
 
 HDR = r"^ohkami::response::headers::Headers$"
 
@@ -39,6 +40,7 @@ def run(ck, progs):
         ck.guard("C03-e DECISION complete", lambda: c03e(ck, prog))
         ck.guard("C03-g MUSTPASS payload sent", lambda: c03g(ck, prog))
         ck.guard("C03-h SIBLING custom-name routing", lambda: c03h(ck, prog))
+        ck.guard("C03-i MUSTPASS chunked framing", lambda: c03i(ck, prog))
         if cfg == "A":
             ck.guard("C03-f TABLE", lambda: c03f(ck, prog))
     ck.config = None
@@ -721,3 +723,25 @@ def c03h(ck, prog):
           "" if ok else "the custom-name header operations disagree on redirecting standard names to the standard store (%s): `.x(\"Vary\", \"Origin\")` then `.x(\"Vary\", append(..))` sends two Vary lines, "
           "`.x(\"Cache-Control\", ..)` then `.x(\"Cache-Control\", None)` leaves the removed header on the wire" % ", ".join("%s: %s" % (k, "redirects" if v else "custom store") for k, v in sorted(fam.items())),
           how="all three use %s" % ("the standard store for standard names" if True in vals else "the custom store only"))
+
+
+def c03i(ck, prog):
+    """`a streamed body is sent in well-formed chunked coding`: each chunk's size line is the length of the bytes that follow
+    it, CRLF after the size and after the data, the zero chunk at the end. These are the framing clauses of the stream arm
+    of Response::send (C17-a), re-evaluated here: a chunk size computed from anything but the finished message is a
+    malformed response whatever the message means."""
+    R = "C03-i MUSTPASS chunked framing"
+    from . import C17
+    if not prog.find(r"^ohkami::response::content::Content::Stream$") and not any(v.get("name") == "Stream" for k, a in prog.adts.items() if k.endswith("response::content::Content") for v in a.get("variants", [])):
+        return
+    sub = type(ck)(ck.prop, ck.tier)
+    sub.config = ck.config
+    sub.guard("C17-a MUSTPASS framing", lambda: C17.c17a(sub, prog))
+    n = 0
+    for o in sub.obs:
+        if o["key"].startswith("floor:"):
+            continue
+        if o["key"] in ("size-of-message", "size-after-last-write", "chunk-framing", "leading-zeros", "terminal-chunk", "chunk-sent-per-item", "anchor-lost"):
+            n += 1
+            ck.ob(R, "C17-a:" + o["key"], o["ok"], o["where"], o["detail"], how=o["how"], nontrivial=o.get("nontrivial", True))
+    ck.floor(R, "framing clauses", n, 4)
